@@ -158,7 +158,8 @@ class _Unroll(ast.NodeTransformer):
         if isinstance(it, ast.Name) and it.id in self.tables and 1 <= len(self.tables[it.id]) <= self.MAX_TABLE and not node.orelse:
             # a module-level table of constants (`for kind in _KINDS:`): the same as the literal tuple
             it = ast.Tuple(elts=[ast.copy_location(ast.Constant(value=v), node.iter) for v in self.tables[it.id]], ctx=ast.Load())
-        if not isinstance(it, (ast.Tuple, ast.List)) or not (1 <= len(it.elts) <= max(self.MAX, self.MAX_TABLE if it is not node.iter else self.MAX)) or node.orelse:
+        limit = 12 if getattr(node, "_own_fields", False) else max(self.MAX, self.MAX_TABLE if it is not node.iter else self.MAX)
+        if not isinstance(it, (ast.Tuple, ast.List)) or not (1 <= len(it.elts) <= limit) or node.orelse:
             return node
         if any(isinstance(e, ast.Starred) for e in it.elts):
             return node
@@ -234,6 +235,30 @@ def _setattr_idiom(n: ast.Expr):
         tgt = ast.Attribute(value=c.args[0], attr=c.args[1].value, ctx=ast.Store())
         return ast.copy_location(ast.Assign(targets=[tgt], value=c.args[2], type_comment=None), n)
     return n
+
+
+def _own_field_loops(tree: ast.Module) -> None:
+    """In a method of a `@dataclass(slots=True)` class, `for name in self.__slots__:` iterates over the names of the
+    fields the class itself declares, in order of declaration (inherited slots belong to the bases): the loop is given the
+    literal tuple of those names, so that it is unrolled like any other table-driven loop (at most twelve fields)."""
+    for cls in [n for n in ast.walk(tree) if isinstance(n, ast.ClassDef)]:
+        slots = False
+        for d in cls.decorator_list:
+            if isinstance(d, ast.Call) and (dotted(d.func) or "").split(".")[-1] == "dataclass":
+                slots = any(k.arg == "slots" and isinstance(k.value, ast.Constant) and k.value.value is True for k in d.keywords)
+        if not slots:
+            continue
+        names = [st.target.id for st in cls.body if isinstance(st, ast.AnnAssign) and isinstance(st.target, ast.Name)
+                 and "ClassVar" not in ast.unparse(st.annotation)]
+        if not (1 <= len(names) <= 12):
+            continue
+        for fn in [n for n in cls.body if isinstance(n, ast.FunctionDef) and n.args.args]:
+            selfn = fn.args.args[0].arg
+            for lp in [n for n in ast.walk(fn) if isinstance(n, ast.For)]:
+                it = lp.iter
+                if isinstance(it, ast.Attribute) and it.attr == "__slots__" and isinstance(it.value, ast.Name) and it.value.id == selfn:
+                    lp.iter = ast.copy_location(ast.Tuple(elts=[ast.copy_location(ast.Constant(value=v), it) for v in names], ctx=ast.Load()), it)
+                    lp._own_fields = True
 
 
 def _static_tables(tree: ast.Module) -> dict:
@@ -945,6 +970,10 @@ def normalise_tree(tree: ast.Module) -> ast.Module:
         tables = _static_tables(tree)
     except Exception:  # noqa: BLE001 - optional normal form
         tables = {}
+    try:
+        _own_field_loops(tree)
+    except Exception:  # noqa: BLE001 - optional normal form
+        pass
     tree = _Unroll(tables).visit(tree)
     tree = _Idioms().visit(tree)
     if INLINE_PROCEDURES:
